@@ -286,7 +286,7 @@ func knownClass(e *eco, f failure, req string) string {
 			return "NPMHyphenUpperBelowLower"
 		}
 	case "cargo":
-		if (f.law == "match" || f.law == "matchrequirement") && strings.Contains(req, ",") && strings.Contains(f.v, "-") && kf.Open("C03", "CargoPrereleaseMultiComparator") {
+		if (f.law == "match" || f.law == "matchrequirement") && strings.Contains(req, ",") && strings.Contains(f.v, "-") && cargoHasPartialComparator(req) && kf.Open("C03", "CargoPrereleaseMultiComparator") {
 			return "CargoPrereleaseMultiComparator"
 		}
 	case "maven":
@@ -295,6 +295,32 @@ func knownClass(e *eco, f failure, req string) string {
 		}
 	}
 	return ""
+}
+
+// cargoHasPartialComparator reports whether some comparator of a comma list
+// is written with fewer than three components or a wildcard (or is an exact
+// comparator without a prerelease): the crate evaluates such a comparator on
+// the components it gives, so "1", "=1", "1.*" and ">0" accept or refuse a
+// prerelease such as 1.0.0-0 regardless of where it sorts, while the library
+// turns every comparator into an interval and intersects.
+func cargoHasPartialComparator(req string) bool {
+	for _, c := range strings.Split(req, ",") {
+		c = strings.TrimLeft(strings.TrimSpace(c), "<>=^~ v")
+		if c == "" {
+			continue
+		}
+		core := c
+		if i := strings.IndexAny(core, "-+"); i >= 0 {
+			core = core[:i]
+		}
+		if strings.ContainsAny(core, "*xX") || strings.Count(core, ".") < 2 {
+			return true
+		}
+		if strings.HasPrefix(strings.TrimSpace(strings.Split(req, ",")[0]), "=") && !strings.Contains(c, "-") {
+			return true
+		}
+	}
+	return false
 }
 
 var mavenOpenLowerBelowZero = regexp.MustCompile(`\(,0(\.0)*-(?i:alpha|beta|milestone|rc|cr|snapshot|a[0-9]|b[0-9]|m[0-9])`)
